@@ -18,6 +18,14 @@ def FlagsCoverAllNan (x : Input) (better : Cell → Cell → Bool) (flags : Nat 
       (nDisp (gridMin x.dminG x.L.rows x.L.cols) (gridMax x.dmaxG x.L.rows x.L.cols) x.sp) = none →
     Flags.isInvalid (flags r c) = true
 
+theorem flagsCover_of_B (x : Input) (better : Cell → Cell → Bool) (flags : Nat → Nat → Nat)
+    (h : flagsCoverB x better flags = true) : FlagsCoverAllNan x better flags := by
+  intro r c hr hc hw
+  simp only [flagsCoverB, List.all_eq_true, List.mem_range, Bool.or_eq_true] at h
+  rcases h r hr c hc with h1 | h1
+  · rw [hw] at h1; cases h1
+  · exact h1
+
 theorem wtaMap_disp_some (x : Input) (better : Cell → Cell → Bool) (flags : Nat → Nat → Nat) (invalid : Val) (r c j : Nat)
     (hw : wta better (fun j => costVolume x (r : Int) (c : Int) j)
       (nDisp (gridMin x.dminG x.L.rows x.L.cols) (gridMax x.dmaxG x.L.rows x.L.cols) x.sp) = some j) :
